@@ -243,6 +243,12 @@ def run(ctx):
             o3.undecided("column removal not recognised", cj)
             o.undecided("see C08.3", cj)
 
+    with ctx.obligation("C08.4", "the tabulation the rows are handed to is count / number of vertices") as o:
+        # the cover loader's distribution IS convert_jds_to_jdd(rows): the same frequency-table formula C06.3 checks
+        from gcmstatic.conform import conform_attr
+        from checks.c06 import REF_FREQ
+        conform_attr(o, prog.method(prog.cls("JointDegree"), "convert_jds_to_jdd"), "_jdd", REF_FREQ, "convert_jds_to_jdd")
+
     with ctx.obligation("C08.4", "rows are hashable tuples when tabulated") as o:
         calls = [n for n in astx.walk_fn(cj.node) if isinstance(n, ast.Call) and txt(n.func) == "self.convert_jds_to_jdd"]
         if len(calls) != 1 or len(calls[0].args) != 1:
@@ -280,6 +286,10 @@ def run(ctx):
                 ok_cols = bw is not None and txt(bw["w"]) in ("len(max(self._cover, key=len))", "max(len(c) for c in self._cover)", "max([len(c) for c in self._cover])", "max(self._motif_sizes)")
                 if ok_rows and ok_cols:
                     o.holds(cj, apps[0], "one zero row per distinct vertex id, one column per size up to the largest clique")
+                elif ok_cols and b is None and (match(pat("range(max($ids) + 1)"), nrows) is not None or match(pat("range(max($ids))"), nrows) is not None
+                                                  or match(pat("range(len($ids) + 1)"), nrows) is not None or match(pat("range(len($ids) - 1)"), nrows) is not None):
+                    o.violated(cj, lp, f"`{txt(nrows)}` rows are created, not one per distinct vertex id: for a cover numbered from 1 (or with gaps) a phantom all-zero row enters the "
+                                       "distribution / a vertex has no row", shape_free=True)
                 elif bw is not None and not ok_cols and "self._cover" in txt(bw["w"]):
                     o.violated(cj, apps[0], f"rows have `{txt(bw['w'])}` columns, not one per size up to the largest clique")
                 else:
